@@ -36,8 +36,8 @@ ASSUMPTIONS = [
     "a link into init_args is ignored for a class that does not have the parameter (documented)",
 ]
 FX = "vf.gen.fixtures."
-LINKSETS = [["ab_c", "a_d"], ["g_c", "a_d", "a_sn"], ["a_d", "a_sn", "b_lsn"], ["a_d", "gu_gw"], ["ab_c", "a_d", "b_gv", "a_sn", "b_lsn"], ["a_sn"], ["b_lsn", "gu_gw"], ["g_c", "a_sn", "b_lsn"]]
-TARGET_KEYS = {"ab_c": ["c"], "g_c": ["c"], "a_d": ["d"], "gu_gw": ["g.w"], "b_gv": ["g.v"], "a_sn": ["s.init_args.n"], "b_lsn": []}
+LINKSETS = [["ab_c", "a_d"], ["g_c", "a_d", "a_sn"], ["a_d", "a_sn", "b_lsn"], ["a_d", "gu_gw"], ["ab_c", "a_d", "b_gv", "a_sn", "b_lsn"], ["a_sn"], ["b_lsn", "gu_gw"], ["g_c", "a_sn", "b_lsn"], ["encw_e"], ["encw_e", "a_d", "ab_c"]]
+TARGET_KEYS = {"ab_c": ["c"], "g_c": ["c"], "a_d": ["d"], "gu_gw": ["g.w"], "b_gv": ["g.v"], "a_sn": ["s.init_args.n"], "b_lsn": [], "encw_e": ["e"]}
 
 
 def add2(a, b):
@@ -62,8 +62,15 @@ def mk(links):
     p.add_class_arguments(F.LGrp, "g")
     p.add_argument("--s", type=F.LSub, default={"class_path": FX + "LSub"})
     p.add_argument("--ls", type=List[F.LSub], default=[])
+    if "encw_e" in links:  # a source that is an init arg of a class argument and may be None
+        from typing import Optional
+
+        p.add_argument("--enc", type=F.LEnc, default={"class_path": FX + "LEnc"})
+        p.add_argument("--e", type=Optional[int], default=5)
     for l in links:
-        if l == "ab_c":
+        if l == "encw_e":
+            p.link_arguments("enc.init_args.width", "e")
+        elif l == "ab_c":
             p.link_arguments(("a", "b"), "c", compute_fn=add2)
         elif l == "a_d":
             p.link_arguments("a", "d")
@@ -90,11 +97,15 @@ def case_strategy():
         for k in ("a", "b", "g.u", "g.v"):
             if draw(st.booleans()) and not (k == "g.v" and "b_gv" in links):
                 puts.append([k, draw(st.sampled_from(["argv", "cfg", "env"])), draw(st.integers(0, 9))])
+        if "encw_e" in links and draw(st.integers(0, 3)) > 0:
+            puts.append(["enc.init_args.width", draw(st.sampled_from(["argv", "cfg"])), draw(st.sampled_from([None, None, 3, 0]))])
+            if draw(st.booleans()):  # an override of an override
+                puts.append(["enc.init_args.width", "argv", draw(st.sampled_from([None, None, 4]))])
         cls = draw(st.sampled_from(classes))
         ls = draw(st.lists(st.sampled_from(classes[1:]), max_size=2))
         supplied = None
         if draw(st.booleans()):
-            t = draw(st.sampled_from(["c", "d", "s.n", "g.w", "g.v", "ls.n"]))
+            t = draw(st.sampled_from(["c", "d", "s.n", "g.w", "g.v", "ls.n"] + (["e", "e"] if "encw_e" in links else [])))
             how = draw(st.sampled_from(["cfg", "cfg", "object", "option"]))
             supplied = [t, how]
         cls_late = draw(st.booleans())  # the class of --s is changed after its init_args were touched
@@ -118,6 +129,8 @@ def target_applicable(case, t):
         return "gu_gw" in links
     if t == "g.v":
         return "b_gv" in links
+    if t == "e":
+        return "encw_e" in links
     if t == "ls.n":
         return "b_lsn" in links and any(c != "LSub3" for c in case["ls"])
     return False
@@ -154,12 +167,12 @@ def run_case(ctx, case):
     obj_channel = False
     if sup and target_applicable(case, sup[0]):
         t, how = sup
-        spec = {"c": {"c": 77}, "d": {"d": 77}, "s.n": {"s": {"init_args": {"n": 77}}}, "g.w": {"g": {"w": 77}}, "g.v": {"g": {"v": 77}},
+        spec = {"e": {"e": 77}, "c": {"c": 77}, "d": {"d": 77}, "s.n": {"s": {"init_args": {"n": 77}}}, "g.w": {"g": {"w": 77}}, "g.v": {"g": {"v": 77}},
                 "ls.n": {"ls": [{"class_path": FX + c, "init_args": ({"n": 77} if c != "LSub3" else {})} for c in case["ls"]]}}[t]
         if how == "option":
-            if t in ("c", "d"):
-                spell = {"c": ["--c=77", "-c=77", "--c-alt=77", "-c 77"], "d": ["--d=77", "--dee=77", "--dee 77"]}[t]
-                option_on_plain_target = spell[(len(case["puts"]) + len(case["ls"]) + sum(x[2] for x in case["puts"])) % len(spell)]  # (a pure function of the case)
+            if t in ("c", "d", "e"):
+                spell = {"e": ["--e=77", "--e 77"], "c": ["--c=77", "-c=77", "--c-alt=77", "-c 77"], "d": ["--d=77", "--dee=77", "--dee 77"]}[t]
+                option_on_plain_target = spell[(len(case["puts"]) + len(case["ls"]) + sum(x[2] or 0 for x in case["puts"])) % len(spell)]  # (a pure function of the case)
                 ctx.cls("target-option-spelling:" + option_on_plain_target.split("=")[0].split(" ")[0])
             elif t in ("g.w", "g.v"):
                 option_on_plain_target = f"--{t}=77"
@@ -265,7 +278,10 @@ def run_case(ctx, case):
     # invariants, recomputed by the harness from the final source values
     for l in links:
         try:
-            if l == "ab_c":
+            if l == "encw_e":
+                ok = cfg.e == cfg.enc.init_args.width and type(cfg.e) is type(cfg.enc.init_args.width)
+                ctx.cls("class-init-arg source is None" if cfg.enc.init_args.width is None else "class-init-arg source is a number")
+            elif l == "ab_c":
                 ok = cfg.c == add2(cfg.a, cfg.b)
             elif l == "a_d":
                 ok = cfg.d == cfg.a
